@@ -3,3 +3,5 @@
 cd /verif
 ids="$@"; [ -z "$ids" ] && ids=$(python3 -c "import json; print(' '.join(c['property_id'] for c in json.load(open('MANIFEST.json'))['checks']))")
 for c in $ids; do ./check $c --tier quick > /var/tmp/runall.$c.log 2>&1; echo "$c rc=$? $(tail -1 /var/tmp/runall.$c.log)"; done
+# the generated model parts of the unchanged tree, kept as the stand-in used when a translator fails on a changed tree
+[ -z "$@" ] && [ -z "$(git -C /repo status --porcelain --untracked-files=no)" ] && cp /verif/coq/gen/*.v /verif/coq/gen.baseline/
